@@ -187,7 +187,7 @@ def takes_bool(a: bool) -> None: pass
 def takes_bytes(a: bytes) -> None: pass
 def to_str(a: int) -> str: return str(a)
 '''
-LITS = ["1", "True", '"a"', "None", "1.5", 'b"x"', "un"]      # un: an unannotated parameter of the caller (Any): contributes no bound
+LITS = ["1", "True", '"a"', "None", "1.5", 'b"x"', "un", "tv"]      # tv: a parameter of the caller whose type is an unbounded type variable (any object may arrive)      # un: an unannotated parameter of the caller (Any): contributes no bound
 CLS = ["int", "str", "float", "bool"]
 CLS_REP = {"int": "1", "str": '"a"', "float": "1.5", "bool": "True"}       # a representative instance: passing the class makes its instances lower bounds
 CBS = ["takes_object", "takes_int", "takes_float", "takes_str", "takes_bool", "takes_bytes"]
@@ -234,7 +234,7 @@ def _calls(res, tier, fi, only=None):
     for c in calls:
         for p in perms:
             lines.append("    f(%s)" % ", ".join("%s=%s" % (names[i], c[i]) for i in p))
-    src = pre + src_def + "\ndef caller(un):\n" + "\n".join(lines) + "\n"
+    src = pre + src_def + "\nUQ = TypeVar('UQ')\ndef caller(un, tv: UQ):\n" + "\n".join(lines) + "\n"
     first = src.count("\n") - len(lines) + 1
     fails, tree, mod = check(src, visitor_cls=Rec, want_module=True)
     res.transitions += 1
@@ -253,7 +253,8 @@ def _calls(res, tier, fi, only=None):
         for ci, c in enumerate(calls):
             res.states += 1
             order = fi * 100000 + ci
-            lows = [eval(CLS_REP[c[i]] if k.startswith("cls") else c[i], ns) for i, k in enumerate(kinds) if not k.startswith("cb") and c[i] != "un"]
+            lows = [eval(CLS_REP[c[i]] if k.startswith("cls") else c[i], ns) for i, k in enumerate(kinds) if not k.startswith("cb") and c[i] not in ("un", "tv")]
+            has_tv_arg = any(c[i] == "tv" and not k.startswith(("cb", "cls")) for i, k in enumerate(kinds))
             ups = [CB_PARAM[c[i]] for i, k in enumerate(kinds) if k.startswith("cb")]
             verdicts = {}
             case = {"mode": "calls", "form": fi, "call": list(c), "order": order}
@@ -275,6 +276,8 @@ def _calls(res, tier, fi, only=None):
                     continue
                 eS = ext(S)
                 bad = None
+                if has_tv_arg and eS != (1 << len(objs)) - 1 and "~UQ" not in str(S):
+                    bad = "lower-bound-unsatisfied"       # an argument of type-variable type can be any object: the solution must accept all of them (or mention the variable)
                 for o in lows:
                     i = next((j for j, x in enumerate(objs) if x is o or (type(x) is type(o) and x == o)), None)
                     if i is not None and not (eS >> i) & 1:
@@ -291,9 +294,9 @@ def _calls(res, tier, fi, only=None):
                         bad = bad or "not-a-constraint"
                 res.outcomes["call:%s" % (bad or "ok")] += 1
                 if bad:
-                    res.violation({"kind": bad, "form": "/".join(kinds), "route": "call"}, case, "%s is accepted with %s = %s" % (desc, rtv, S))
+                    res.violation({"kind": bad, "form": "/".join(kinds), "route": "call", "tv_arg": str(int(has_tv_arg))}, case, "%s is accepted with %s = %s" % (desc, rtv, S))
                     break
-            if verdicts == {False: verdicts.get(False)} and lows:
+            if verdicts == {False: verdicts.get(False)} and lows and not has_tv_arg:
                 # accepted in every order: a value for the type variable must exist.  It exists iff every lower-bound object is a member of every
                 # upper bound and of the declared bound, and (constraints) some constraint contains all of them and is a subtype of every upper bound
                 if isinstance(decl, tuple):
